@@ -19,8 +19,6 @@ def orbit (step : Nat → Nat) : Nat → Nat → List Nat
 
 theorem tie_bech32Charset : Generated.bech32Charset = nats Bech32.charset := by decide +kernel
 
-theorem tie_bech32Gen : Generated.bech32Gen = Bech32.gen := by decide +kernel
-
 theorem tie_bech32Syndromes :
     Generated.bech32Syndromes = (List.range 5).map (fun b => orbit (fun c => Bech32.polymodStep c 0) 89 (2 ^ b)) := by
   decide +kernel
